@@ -23,7 +23,7 @@ type c20Case struct {
 func init() {
 	engine.Register(&engine.Check{
 		ID: "C20", Level: "exploration",
-		Rule:        "every sequence of 0..5 (quick) / 0..6 (thorough) points on the 3x3 grid and 0..4 / 0..5 on the 4x4 grid; every sequence of length <=9 / <=11 over a 3-point alphabet (deep stacks, repeated points, zero-length chords, closed loops); straight and zig-zag runs of 50/100/200 points with every single point displaced; damped zig-zags and inward spirals of every length 20..70, 100 and 200 in both directions (deep interval stacks on either side); every sequence of 3..4 grid points again at three offsets up to 2^38 (one of them stretched by 30; chords stay shorter than 128, so the smallest non-zero distance is 2^8 times the rounding of a projected point at that offset); straight runs with displacements of 2^-21..2^-40 against thresholds around them; x thresholds {0, 1/4, 1/2, 1/sqrt2, 1, sqrt2, 2, 10} x stride 2..5 with NaN extras. Oracle: indexes strictly increasing incl. first and last (all indexes for <3 points); for each omitted point the exact rational squared distance to the segment between its nearest retained neighbours is <= t^2(1+2^-40) (exactly 0 for t = 0); simplifying the selected points again returns all of them. distinct_nontrivial = distinct (sequence, threshold) with >= 3 points Also: every point count 0..260 (zig-zag with one displaced point, lattice walk, collinear run) and, for every case, the returned slice overwritten and appended to by the caller followed by the same call again. Round 8: raster lines (two and three runs of unit steps in all direction pairs / triples with single or doubled joints; a long run with an out-and-back excursion of 1..6 steps in every direction) x 8 thresholds; sequences of 1000, 4097, 10001 (thorough 40000) points.",
+		Rule:        "every sequence of 0..5 (quick) / 0..6 (thorough) points on the 3x3 grid and 0..4 / 0..5 on the 4x4 grid; every sequence of length <=9 / <=11 over a 3-point alphabet (deep stacks, repeated points, zero-length chords, closed loops); straight and zig-zag runs of 50/100/200 points with every single point displaced; damped zig-zags and inward spirals of every length 20..70, 100 and 200 in both directions (deep interval stacks on either side); every sequence of 3..4 grid points again at three offsets up to 2^38 (one of them stretched by 30; chords stay shorter than 128, so the smallest non-zero distance is 2^8 times the rounding of a projected point at that offset); straight runs with displacements of 2^-21..2^-40 against thresholds around them; x thresholds {0, 1/4, 1/2, 1/sqrt2, 1, sqrt2, 2, 10} x stride 2..5 with NaN extras. Oracle: indexes strictly increasing incl. first and last (all indexes for <3 points); for each omitted point the exact rational squared distance to the segment between its nearest retained neighbours is <= t^2(1+2^-40) (exactly 0 for t = 0); simplifying the selected points again returns all of them. distinct_nontrivial = distinct (sequence, threshold) with >= 3 points Also: every point count 0..260 (zig-zag with one displaced point, lattice walk, collinear run) and, for every case, the returned slice overwritten and appended to by the caller followed by the same call again. Round 8: raster lines (two and three runs of unit steps in all direction pairs / triples with single or doubled joints; a long run with an out-and-back excursion of 1..6 steps in every direction) x 8 thresholds; sequences of 1000, 4097, 10001 (thorough 40000) points. Round 9: every stride > 2 case again with finite extra ordinates and with one NaN / one +Inf extra: the same indexes.",
 		Run:         c20Run,
 		Replay:      func(c *engine.Ctx, kind string, raw json.RawMessage) { c20Exec(c, decodeCase[c20Case](raw)) },
 		Assumptions: []string{"integer-grid inputs (exact distances); thresholds >= 0"},
